@@ -25,11 +25,12 @@ template <class T> inline T pick_scalar(Rng& g, int op) {
 }
 
 // compare the whole parent with the model: selected elements updated, every other element bit-identical
-template <class T> inline void cmp_parent(Ctx& c, const T* got, const T* model, size_t n, const std::vector<int>& offs, const std::string& what) {
-    c.digest_add(got, n);
+template <class T> inline void cmp_parent(Ctx& c, const T* got, const T* model, size_t n, const std::vector<int>& offs, const std::string& what, bool numeric = false) {
+    // numeric: the right-hand side was a sum of products (its zero may carry either sign): numeric equality, no digest
+    if (!numeric) c.digest_add(got, n);
     for (size_t i = 0; i < n; ++i) {
         ++c.compared;
-        if (same_val(got[i], model[i])) continue;
+        if (numeric ? num_eq(got[i], model[i]) : same_val(got[i], model[i])) continue;
         ++c.bad;
         if (c.mode.empty()) {
             bool sel = false; for (int o : offs) if ((size_t)o == i) sel = true;
@@ -192,13 +193,82 @@ void write2d_eval(Ctx& c) {
         for (size_t i = 0; i < m; ++i) for (size_t j = 0; j < n; ++j) { T s = T(0); for (size_t k = 0; k < 3; ++k) s += P.data()[i * 3 + k] * Q.data()[k * n + j]; prod[i * n + j] = s; }
         const R1& a = r0[g.next() % r0.size()]; const R1& b = r1[g.next() % r1.size()];
         offsets({ (int)M, (int)N }, { a, b }, offs);
-        int op = it % 3;
+        int op = it % 5;
+        if (op == 4) { bool z = false; for (size_t j = 0; j < m * n; ++j) if (prod[j] == T(0)) z = true; if (z) op = 2; }
         std::memcpy(A.data(), a0, sizeof a0); std::memcpy(model, a0, sizeof a0); launder(A.data());
         for (size_t j = 0; j < offs.size(); ++j) model[offs[j]] = apply(op, a0[offs[j]], prod[j]);
         seq s0(a.F, a.L, a.S), s1(b.F, b.L, b.S);
-        switch (op) { case 0: A(s0, s1) = P % Q; break; case 1: A(s0, s1) += P % Q; break; default: A(s0, s1) -= P % Q; }
+        switch (op) { case 0: A(s0, s1) = P % Q; break; case 1: A(s0, s1) += P % Q; break; case 2: A(s0, s1) -= P % Q; break; case 3: A(s0, s1) *= P % Q; break; default: A(s0, s1) /= P % Q; }
         launder(A.data());
         for (size_t i = 0; i < M * N; ++i) { ++c.compared; if (!num_eq(A.data()[i], model[i])) { ++c.bad; if (c.mode.empty()) { c.mode = "selected-element-wrong"; c.first_bad = std::string("A(view)") + OPN[op] + "P%Q offset " + std::to_string(i); } } }
+        ++c.sub;
+    }
+    FA.verify(c, "parent frame"); c.nontrivial = true;
+}
+
+// rhs that requires evaluation (lazy matrix-vector product) assigned through a 1-D slice (dynamic and compile-time ranges), all five operators
+template <class T, size_t N, size_t m>
+void write1d_eval(Ctx& c) {
+    Rng g = c.rng();
+    Framed<Tensor<T, N>> FA; Tensor<T, N>& A = *FA; Tensor<T, m, 3> P; Tensor<T, 3> q;
+    T a0[N], model[N], prod[m];
+    std::vector<R1> rs; enum_ranges((int)N, (int)m, rs, false);
+    std::vector<int> offs;
+    for (int it = 0; it < 300; ++it) {
+        fill_parent(a0, N, g); fill_small(P.data(), m * 3, g, 4); fill_small(q.data(), 3, g, 4);
+        for (size_t i = 0; i < m; ++i) { T s = T(0); for (size_t k = 0; k < 3; ++k) s += P.data()[i * 3 + k] * q.data()[k]; prod[i] = s; }
+        const R1& r = rs[g.next() % rs.size()];
+        offsets({ (int)N }, { r }, offs);
+        int op = it % 5;
+        if (op == 4) { bool z = false; for (size_t j = 0; j < m; ++j) if (prod[j] == T(0)) z = true; if (z) op = 1; }
+        std::memcpy(A.data(), a0, sizeof a0); std::memcpy(model, a0, sizeof a0); launder(A.data());
+        for (size_t j = 0; j < offs.size(); ++j) model[offs[j]] = apply(op, a0[offs[j]], prod[j]);
+        seq sq(opaque(r.F), opaque(r.L), opaque(r.S));
+        switch (op) { case 0: A(sq) = P % q; break; case 1: A(sq) += P % q; break; case 2: A(sq) -= P % q; break; case 3: A(sq) *= P % q; break; default: A(sq) /= P % q; }
+        launder(A.data());
+        cmp_parent(c, A.data(), model, N, offs, std::string("A(") + show(r) + ")" + OPN[op] + "P%q", true);
+        // the whole tensor through the compile-time range of the same extent (only when m == N the range is <0,N>)
+        ++c.sub;
+    }
+    FA.verify(c, "parent frame"); c.nontrivial = true;
+}
+template <class T, size_t N, size_t F, size_t L>
+void fixed1d_eval(Ctx& c) {
+    Rng g = c.rng(); constexpr size_t m = L - F;
+    Framed<Tensor<T, N>> FA; Tensor<T, N>& A = *FA; Tensor<T, m, 3> P; Tensor<T, 3> q;
+    T a0[N], model[N], prod[m];
+    std::vector<int> offs; for (size_t i = F; i < L; ++i) offs.push_back((int)i);
+    for (int it = 0; it < 100; ++it) {
+        fill_parent(a0, N, g); fill_small(P.data(), m * 3, g, 4); fill_small(q.data(), 3, g, 4);
+        for (size_t i = 0; i < m; ++i) { T s = T(0); for (size_t k = 0; k < 3; ++k) s += P.data()[i * 3 + k] * q.data()[k]; prod[i] = s; }
+        int op = it % 5;
+        if (op == 4) { bool z = false; for (size_t j = 0; j < m; ++j) if (prod[j] == T(0)) z = true; if (z) op = 1; }
+        std::memcpy(A.data(), a0, sizeof a0); std::memcpy(model, a0, sizeof a0); launder(A.data());
+        for (size_t j = 0; j < offs.size(); ++j) model[offs[j]] = apply(op, a0[offs[j]], prod[j]);
+        switch (op) { case 0: A(fseq<F, L>()) = P % q; break; case 1: A(fseq<F, L>()) += P % q; break; case 2: A(fseq<F, L>()) -= P % q; break; case 3: A(fseq<F, L>()) *= P % q; break; default: A(fseq<F, L>()) /= P % q; }
+        launder(A.data());
+        cmp_parent(c, A.data(), model, N, offs, std::string("A(fseq)") + OPN[op] + "P%q", true);
+        ++c.sub;
+    }
+    FA.verify(c, "parent frame"); c.nontrivial = true;
+}
+template <class T, size_t M, size_t N, size_t F0, size_t L0, size_t F1, size_t L1>
+void fixed2d_eval(Ctx& c) {
+    Rng g = c.rng(); constexpr size_t m = L0 - F0, n = L1 - F1;
+    Framed<Tensor<T, M, N>> FA; Tensor<T, M, N>& A = *FA; Tensor<T, m, 3> P; Tensor<T, 3, n> Q;
+    T a0[M * N], model[M * N], prod[m * n];
+    std::vector<int> offs; for (size_t i = F0; i < L0; ++i) for (size_t j = F1; j < L1; ++j) offs.push_back((int)(i * N + j));
+    for (int it = 0; it < 100; ++it) {
+        fill_parent(a0, M * N, g); fill_small(P.data(), m * 3, g, 4); fill_small(Q.data(), 3 * n, g, 4);
+        for (size_t i = 0; i < m; ++i) for (size_t j = 0; j < n; ++j) { T s = T(0); for (size_t k = 0; k < 3; ++k) s += P.data()[i * 3 + k] * Q.data()[k * n + j]; prod[i * n + j] = s; }
+        int op = it % 5;
+        if (op == 4) { bool z = false; for (size_t j = 0; j < m * n; ++j) if (prod[j] == T(0)) z = true; if (z) op = 2; }
+        std::memcpy(A.data(), a0, sizeof a0); std::memcpy(model, a0, sizeof a0); launder(A.data());
+        for (size_t j = 0; j < offs.size(); ++j) model[offs[j]] = apply(op, a0[offs[j]], prod[j]);
+        switch (op) { case 0: A(fseq<F0, L0>(), fseq<F1, L1>()) = P % Q; break; case 1: A(fseq<F0, L0>(), fseq<F1, L1>()) += P % Q; break; case 2: A(fseq<F0, L0>(), fseq<F1, L1>()) -= P % Q; break;
+                      case 3: A(fseq<F0, L0>(), fseq<F1, L1>()) *= P % Q; break; default: A(fseq<F0, L0>(), fseq<F1, L1>()) /= P % Q; }
+        launder(A.data());
+        cmp_parent(c, A.data(), model, M * N, offs, std::string("A(fseq,fseq)") + OPN[op] + "P%Q", true);
         ++c.sub;
     }
     FA.verify(c, "parent frame"); c.nontrivial = true;
